@@ -330,11 +330,15 @@ Definition pacc_name (a : paccess) : val :=
 Definition ps_step_of (ckind : N) : N -> N -> N :=
   match ckind with 0 => step_trivial | 1 => spec_octet | _ => step_sum32 end.
 Definition ps_obs (st : pstore) (m0 m : medium) (a : paccess) (d : val) : list val :=
-  [pacc_name a; d; VH (m_img m); vbool (forallb (in_region st) (m_log m));
+  [pacc_name a; d; VH (m_img m); vbool (forallb (in_region st) (skipn (length (m_log m0)) (m_log m)));   (* the accesses of this operation *)
    vbool (N.of_nat (length (m_log m)) =? N.of_nat (length (m_log m0)))].
 Fixpoint ps_run (step : N -> N -> N) (st : pstore) (m : medium) (ops : list (N * N * N * N)) : list val :=
   match ops with
   | [] => []
+  | (8, a, _, _) :: r =>     (* the caller re-places the instance: persistent_place *)
+      ([VS "place"] ++ ps_run step {| p_caddr := a; p_csize := p_csize st; p_dsize := p_dsize st; p_init := p_init st; p_bsize := p_bsize st |} m r)%list
+  | (9, a, _, _) :: r =>     (* ... or gives it another auxiliary buffer size (0: none): persistent_buffer *)
+      ([VS "buffer"] ++ ps_run step {| p_caddr := p_caddr st; p_csize := p_csize st; p_dsize := p_dsize st; p_init := p_init st; p_bsize := (if a =? 0 then 1 else a) |} m r)%list
   | (code, a, b, c) :: r =>
       let '(obs, m') :=
         match code with
